@@ -70,7 +70,7 @@ Qed.
 (* every error of jsonable is the ValueError for None *)
 Lemma jsonable_err : forall v e, jsonable v = IRaise e -> e = EValueError.
 Proof.
-  induction v as [|b|z|r|s|t|l IH|m IH] using pval_nested_ind; intros e H; try discriminate.
+  induction v as [|b|z|r|s|t|ym pr pc t|l IH|m IH] using pval_nested_ind; intros e H; try discriminate.
   - inversion H. reflexivity.
   - rewrite jsonable_list_eq in H. destruct (seq_i (map jsonable l)) as [l'|e'] eqn:E; [discriminate|].
     inversion H; subst. apply seq_i_err in E. apply in_map_iff in E. destruct E as [x [Ex Hx]].
@@ -87,14 +87,14 @@ Proof. intros kv p H. unfold lift_kv in H. destruct (jsonable (snd kv)); inversi
 
 Lemma jsonable_nodup : forall v a, pnodup v -> jsonable v = IOk a -> nodup_keys a.
 Proof.
-  induction v as [|b|z|r|s|t|l IH|m IH] using pval_nested_ind; intros a N H; try (inversion H; subst; constructor).
+  induction v as [|b|z|r|s|t|ym pr pc t|l IH|m IH] using pval_nested_ind; intros a N H; try (inversion H; subst; constructor).
   - rewrite jsonable_list_eq in H. destruct (seq_i (map jsonable l)) as [l'|e'] eqn:E; [|discriminate].
-    inversion H; subst. constructor. apply seq_i_ok in E. inversion N as [| | | | | |l0 Nl|]; subst. clear H N.
+    inversion H; subst. constructor. apply seq_i_ok in E. inversion N as [| | | | | | |l0 Nl|]; subst. clear H N.
     revert l' E. induction l as [|x l IHl]; intros l' E; inversion E; subst; constructor.
     + inversion IH; subst. inversion Nl; subst. eauto.
     + inversion IH; subst. inversion Nl; subst. apply IHl; auto.
   - rewrite jsonable_dict_eq in H. destruct (seq_i (map lift_kv m)) as [m'|e'] eqn:E; [|discriminate].
-    inversion H; subst. apply seq_i_ok in E. inversion N as [| | | | | | |m0 N1 N2]; subst. clear H N.
+    inversion H; subst. apply seq_i_ok in E. inversion N as [| | | | | | | |m0 N1 N2]; subst. clear H N.
     assert (K : map fst m' = map fst m).
     { clear IH N1 N2. revert m' E. induction m as [|kv m IHm]; intros m' E; inversion E; subst; [reflexivity|].
       simpl. f_equal; [eapply lift_kv_fst; eauto|apply IHm; assumption]. }
@@ -148,13 +148,13 @@ Qed.
 
 Lemma jsonable_pperm : forall v w, pperm v w -> pnodup v -> Rres (jsonable v) (jsonable w).
 Proof.
-  induction v as [|b|z|r|s|t|l IH|m IH] using pval_nested_ind; intros w P N;
+  induction v as [|b|z|r|s|t|ym pr pc t|l IH|m IH] using pval_nested_ind; intros w P N;
     inversion P as [v0|l0 l' F2|m0 m' m'' F2 Pm]; subst;
     try (unfold Rres; destruct (jsonable _) eqn:E; [apply jp_refl|reflexivity]).
   - (* lists *)
     rewrite !jsonable_list_eq.
     assert (R : Forall2 Rres (map jsonable l) (map jsonable l')).
-    { inversion N as [| | | | | |l0 Nl|]; subst. clear P N.
+    { inversion N as [| | | | | | |l0 Nl|]; subst. clear P N.
       revert IH Nl. induction F2 as [|x y l l' Hxy Hll IHl]; intros IH Nl; simpl; constructor.
       - inversion IH; subst. inversion Nl; subst. auto.
       - inversion IH; subst. inversion Nl; subst. apply IHl; assumption. }
@@ -165,7 +165,7 @@ Proof.
   - (* dictionaries *)
     rewrite !jsonable_dict_eq.
     assert (R : Forall2 Rkv (map lift_kv m) (map lift_kv m')).
-    { inversion N as [| | | | | | |m0 N1 N2]; subst. clear P N N1 Pm.
+    { inversion N as [| | | | | | | |m0 N1 N2]; subst. clear P N N1 Pm.
       revert IH N2. induction F2 as [|x y m m' [Hxy1 Hxy2] Hmm IHm]; intros IH N2; simpl; constructor.
       - inversion IH as [|? ? IHx IHr]; subst. inversion N2 as [|? ? Nx Nr]; subst.
         specialize (IHx _ Hxy2 Nx). unfold Rkv, lift_kv, Rres in *.
